@@ -142,9 +142,9 @@ def build_stage(case, i=0):
             over["tasks"] = [TaskExecution.create(name=f"t{k}", implementing_class=f"c{k}", stage_start=(k == 0), stage_end=(k == v - 1))
                              for k in range(v)]
         elif f == "task_status":
-            post.append(lambda s, v=v: setattr(s.tasks[0], "status", v))
+            post.append(lambda s, v=v: s.tasks and setattr(s.tasks[0], "status", v))
         elif f == "task_exception_details":
-            post.append(lambda s, v=v: setattr(s.tasks[0], "task_exception_details", dict(v)))
+            post.append(lambda s, v=v: s.tasks and setattr(s.tasks[0], "task_exception_details", dict(v)))
         elif f in ("context", "outputs", "split_conditions"):
             over[f] = json.loads(json.dumps(v))
         elif f == "requisite_stage_ref_ids":
